@@ -2,15 +2,14 @@
     Model: Model/JobMachine.v; every op list = every workflow shape, completion order and content
     of the backend cache.  [jnocse] marks a call that opted out (cache_scope=NONE or no provenance).
 
-    "Every duplicate receives the same result or error" is proved step by step (C06_duplicate_*_partial: the
-    hand-over when the twin settles, the Done and Resolve steps of the duplicate, the same-execution hit), for every
-    state and every variant; it is NOT yet assembled into one statement over whole runs (that needs the phase/event
-    discipline as a further invariant) — the trace correspondence and the implementation oracle check the whole
-    chain on the real scheduler.  NOT PROVED: each distinct expression reached from one parent job is evaluated
-    once (_pending_expr is not in the model). *)
+    "Every duplicate receives the same result or error" is proved over whole runs (C06_duplicates_agree, from the
+    phase/event discipline of the machine, Proofs/JobDup2.v) for jobs that collapse into a pending twin, and
+    C06_preset_is_final + C06_duplicate_cse_hit_partial for jobs served by the same-execution look-up; the hand-over
+    steps are also stated on their own (C06_duplicate_*_partial).  NOT PROVED: each distinct expression reached from
+    one parent job is evaluated once (_pending_expr is not in the model). *)
 From Coq Require Import List ZArith Bool Arith Lia.
 From RV Require Import Model.JobMachine Proofs.JobBase Proofs.JobRes Proofs.JobRes3
-  Proofs.JobOnce Proofs.JobOnce2 Proofs.JobOnce3 Proofs.JobCtx Proofs.JobDup.
+  Proofs.JobOnce Proofs.JobOnce2 Proofs.JobOnce3 Proofs.JobCtx Proofs.JobDup Proofs.JobDup2.
 Import ListNotations.
 Open Scope list_scope.
 
@@ -80,6 +79,34 @@ Theorem C06_duplicate_cse_hit_partial : forall c s j x co v,
   exists y, getj (exec_job c s j co) j = Some y /\ jpreset y = Some v.
 Proof. exact exec_cse_hit_hands_value. Qed.
 
+(** Every duplicate receives the same result or error, over whole runs: whatever the workflow, the completion order and
+    the backend's answers, a job that collapsed into a pending twin ends with exactly that twin's result or error. *)
+Theorem C06_duplicates_agree : forall c ops t j xt xj o o',
+  pending_owner_safe (vr c) = true ->
+  In (t, j) (subs (run c ops)) -> getj (run c ops) t = Some xt -> getj (run c ops) j = Some xj ->
+  jphase xt = PSettled o -> jphase xj = PSettled o' -> o' = o.
+Proof. intros c ops t j xt xj o o' Hs. exact (duplicates_agree c Hs ops t j xt xj o o'). Qed.
+
+(** A result known in advance (handed over by the twin, or found by the same-execution look-up) is the result the job
+    ends with. *)
+Theorem C06_preset_is_final : forall c ops j x v o,
+  pending_owner_safe (vr c) = true ->
+  getj (run c ops) j = Some x -> jpreset x = Some v -> jphase x = PSettled o -> o = Ok v.
+Proof.
+  intros c ops j x v o Hs Hx Hv Hp.
+  destruct (q_pr _ _ (Q_run c Hs ops) j x v Hx Hv) as [A|[A|A]]; congruence.
+Qed.
+
+Definition c06_cfg_fixed : config := {| limit_of := fun _ => 1%Z; dryrun := false; vr := all_fixed |}.
+
+(** Non-vacuity: job 1 collapses into the running job 0; job 0 finishes with 7; job 1 ends with 7. *)
+Example C06_duplicates_agree_nonvacuous :
+  let ops := [ ONew 5 0 [] false true false; OPop 0 0 CMiss; ONew 5 0 [] false true false; OPop 0 1 CMiss;
+               OComplete 0 true 0%Z; OPop 1 0 CMiss; OEval 0 (Ok 7%Z); OPop 3 0 CMiss; OPop 1 1 CMiss; OPop 3 1 CMiss ] in
+  let s := run (c06_cfg_fixed) ops in
+  subs s = [(0, 1)] /\ map jphase (jobs s) = [PSettled (Ok 7%Z); PSettled (Ok 7%Z)] /\ map jsubmits (jobs s) = [1; 0].
+Proof. vm_compute. repeat split; reflexivity. Qed.
+
 (** As shipped (submitting overwrites the _pending_jobs entry, _finalize_job pops it whoever owns it):
     job 0 runs; job 1, a twin under a parent without provenance, overwrites the entry, finishes and
     pops it; job 2, an ordinary twin, finds neither a pending nor a recorded twin and runs too. *)
@@ -128,6 +155,8 @@ Example C06_context_twin_exact :
 Proof. vm_compute. reflexivity. Qed.
 
 Print Assumptions C06_one_submitter_per_key.
+Print Assumptions C06_duplicates_agree.
+Print Assumptions C06_preset_is_final.
 Print Assumptions C06_duplicate_handed_value_partial.
 Print Assumptions C06_duplicate_handed_error_partial.
 Print Assumptions C06_duplicate_done_resolve_partial.
